@@ -1,4 +1,6 @@
 import RawPanelVerif.Lemmas.OutDecReg
+import RawPanelVerif.Lemmas.OutDomain
+import RawPanelVerif.Base.RegexAlts
 import RawPanelVerif.Gen.Consts
 /-!
 # C04 — Panel ASCII lines decode to exactly the events and information they denote
@@ -10,19 +12,33 @@ reader `Spec.Out.readLine`.
 Main theorems (for ALL byte strings / line lists; `hfmt`: in this direction a float is the token `ParseFloat` returned,
 so `effectsOfOut` must not re-format it):
 * `decOut_sound` : for every list of lines none of which the reader puts outside the domain (each line is well-formed
-  in the grammar of DESIGN.md Appendix B, or non-grammar; `inDomainLines` is decidable) the decoded messages carry exactly
-  the effects the reader assigns, in line order — every event kind incl. `Raw` with and without edge suffix, signed values
-  over the full ranges, map, all 29 keys, capability lists in any order with duplicates, SysStat with any subset/order,
-  `;`-lists, registers; Press = press then release.
-* `nongrammar_silent` : a line whose keyword / key is not part of the grammar (also `key=` without value, blank line)
-  never produces an event or a report.
-* `support_any_order`, `support_same_set` : for ANY list of parts the decoded flag of each capability is "its name occurs
-  in the list"; two lists naming the same set decode to the same flags.
+  in the grammar of DESIGN.md Appendix B as extended in Spec/GrammarOut.lean, or non-grammar; `inDomainLines` is
+  decidable) the decoded messages carry exactly the effects the reader assigns, in line order — Down/Up/Press with and
+  without edge suffix, Enc/Abs/Speed/Raw with and without edge suffix (the suffix of a value event carries no
+  information), signed values over the full ranges, map, all 29 keys, capability lists in any order with duplicates,
+  SysStat with any subset/order, `;`-lists, registers; Press = press then release.
+* `value_edge_ignored` : `HWC#id.edge=Kind:v` (Kind one of Enc, Speed, Abs, Raw; every id, every admitted edge, every
+  value numeral) is read AND decoded exactly as `HWC#id=Kind:v`.
+* `nongrammar_silent` : a line whose keyword / key is not part of the grammar (also `key=` without value, blank line,
+  an `HWC#…=Word` line whose kind word is not one of the seven) never produces an event or a report.
+  `unknown_kind_silent` : the explicit form for `HWC#lhs=rhs` with an unknown kind word, for every `lhs`.
+* `support_any_order`, `support_same_set` : for ANY list of parts the flag of each capability computed by the `switch`
+  loop (`supportOfParts`) is "its name occurs in the list"; two lists naming the same set give the same flags.
+  `support_line_any_order`, `support_lines_same_set` : the same through the whole decoder `decOut` on a
+  `_support=` line with any non-empty LF-free value.
 * `sysstat_any_subset_order` : whatever SysStat record line the reader accepts (any subset, any order of the 20 keys), the
   sliding scan (`a++`) builds the record with exactly the reader's values, absent fields zero.
+* `items_spec` : `;`-lists — the reader's `readItems` and the model of `TrimExplode` both meet the relational
+  specification `Spec.Out.ItemsOf` (which is functional), with its membership form.
 * `regex_sources_tie` : the four regular expressions of the current source are literally the ones the byte matchers
   of the model were written for (regenerated `Gen.Consts`); an edit of a regex breaks this obligation.
+  `regex_alternations_tie` : the alternation lists INSIDE the regenerated sources (parsed by `RegexAlts.altsOf`) are the
+  keyword tables the matchers iterate over (`genericKeys`, `kindsRepaired`, `regWords`), and the reader's own tables
+  (`infoKeys`, `kindWords`, register words) name the same sets.
 * `press_is_down_then_up` : `HWC#id[.edge]=Press` decodes, for every id and edge, to a press followed by a release.
+* `roundtrip_out` : C03 ∘ C04 — for every list of messages of the ASCII-representable domain (`inDomainOut`) the encoder's
+  lines are all in `inDomainLines` (`OutLemmas.encOut_inDomainLines`, Lemmas/OutDomain.lean) and decode to messages with
+  exactly the effects of the original messages, in order (normalisations listed at the theorem).
 * `raw_event_lost_counterexample` : with the pinned regex (no `Raw`) `HWC#5=Raw:123` decoded to an empty message while
   the grammar assigns a raw-analog event; the repaired decoder returns that event.
   `raw_case_would_panic` : the pinned `case "Raw"` indexed `regex_cmd` (4 groups) at [6]: had the regex let `Raw`
@@ -32,8 +48,8 @@ Notes on lines OUTSIDE the well-formed domain (modelled and correspondence-teste
 and typed arguments): the edge separator of the event regex is the wildcard `.`, so `HWC#5x4=Down` and `HWC#5=4=Down` decode
 as id 5 edge 4 (`HWC#54=Down` is unambiguous: greedy digits, empty alternative first → id 54); `Down|Up|Press` followed
 by `:value` ignore the value; `Enc|Abs|Speed|Raw` without value read 0; values beyond 32 bits wrap (cast) or clamp (Atoi);
-`_panelType=Foo` / `EnvironmentalHealth=Foo` append no message at all; a SysStat value that is itself a key name is re-read
-as a key by the sliding scan (`a++`).
+an edge outside {0,1,2,4,8,16}; `_panelType=Foo` / `EnvironmentalHealth=Foo` append no message at all; a SysStat value that is
+itself a key name is re-read as a key by the sliding scan (`a++`).
 -/
 namespace RawPanelVerif.C04
 open RawPanelVerif RawPanelVerif.Bytes RawPanelVerif.MsgOut RawPanelVerif.EncOut RawPanelVerif.DecOut RawPanelVerif.Spec.Out
@@ -49,6 +65,21 @@ theorem regex_sources_tie :
     Gen.regex_cmd_inbound_src = src_cmd_inbound ∧ Gen.regex_map_src = src_map ∧
     Gen.regex_genericSingle_inbound_src = src_generic ∧ Gen.regex_registersOut_src = src_registers := by
   decide +kernel
+
+/-- the alternation lists inside the regenerated regex sources are the keyword tables of the matchers, and the reader's
+tables name the same sets -/
+theorem regex_alternations_tie :
+    RegexAlts.altsOf Gen.regex_genericSingle_inbound_src 0 = genericKeys ∧
+    RegexAlts.altsOf Gen.regex_cmd_inbound_src 2 = kindsRepaired ∧
+    RegexAlts.altsOf Gen.regex_registersOut_src 0 = regWords ∧
+    (∀ k, k ∈ genericKeys ↔ k ∈ infoKeys) ∧ (∀ k, k ∈ kindsRepaired ↔ k ∈ kindWords) ∧
+    regWords = asc "Flag#" :: regWordsSpec := by
+  refine ⟨by decide +kernel, by decide +kernel, by decide +kernel, ?_, ?_, by decide⟩
+  · intro k; exact ⟨OutLemmas.generic_iff_info.1 k, OutLemmas.generic_iff_info.2 k⟩
+  · intro k
+    constructor
+    · exact OutLemmas.kindsRepaired_sub k
+    · revert k; decide
 
 /-- **Press = Down then Up**, for every id and every edge suffix (`edgeText none = ""`, `edgeText (some e) = "." ++ e`) -/
 theorem press_is_down_then_up (o : OutOracle) (ids : Bytes) (hid : IsNum ids) (eds : Option Bytes) (he : OutLemmas.EdgeOk eds) :
@@ -139,10 +170,216 @@ theorem sysstat_any_subset_order (o : OutOracle) (v : Bytes) (effs : List Effect
     (h : readSysStat o v = .grammar effs) : sysStatEff o (sysScan o (splitOn 58 v) {}) = effs :=
   OutLemmas.dec_sysstat o v effs hfmt h
 
-/-- non-vacuity: a mixed sequence (events incl. Raw and an edge suffix, Press, map, keys, a permuted capability list with a
+/-! ## value events with an edge suffix, unknown kind words -/
+
+/-- **A value event with an edge suffix denotes, and decodes to, the same event as without it.**  For every id, every
+edge the grammar admits, each of the four value-carrying kinds and every value numeral: the reader assigns
+`HWC#id.edge=Kind:v` exactly what it assigns `HWC#id=Kind:v`, and the decoder returns the same message for both
+(the value events of the message type have no edge field; sub-match 3 is not consulted). -/
+theorem value_edge_ignored (o : OutOracle) (ids eds k v : Bytes) (x : Int) (hid : IsNum ids) (hed : IsNum eds)
+    (hev : natOfDigits eds ∈ edgeValues) (hk : k = asc "Enc" ∨ k = asc "Speed" ∨ k = asc "Abs" ∨ k = asc "Raw")
+    (hv : readInt v = some x) :
+    readLine o (kHWC ++ (ids ++ 46 :: eds ++ 61 :: (k ++ 58 :: v))) = readLine o (kHWC ++ (ids ++ 61 :: (k ++ 58 :: v))) ∧
+    decLine repaired o (kHWC ++ (ids ++ 46 :: eds ++ 61 :: (k ++ 58 :: v))) = decLine repaired o (kHWC ++ (ids ++ 61 :: (k ++ 58 :: v))) := by
+  obtain ⟨_, hne, hall⟩ := OutLemmas.intval_readInt v x hv
+  have hlt : natOfDigits eds < 2147483648 := by
+    unfold edgeValues at hev; simp only [List.mem_cons, List.not_mem_nil, or_false] at hev; omega
+  have hk58 : (58 : UInt8) ∉ k := by rcases hk with h | h | h | h <;> subst h <;> decide
+  have hkc : ∀ c : UInt8, c = 61 ∨ c = 10 → c ∉ k := by
+    intro c hc; rcases hc with rfl | rfl <;> rcases hk with h | h | h | h <;> subst h <;> decide
+  have hvc : ∀ c : UInt8, isDashDigit c = false → c ∉ v := fun c hc => OutLemmas.dashDigit_no v hall c hc
+  have hrhs : ∀ c : UInt8, c = 61 ∨ c = 10 → c ∉ k ++ 58 :: v := by
+    intro c hc hm
+    simp only [List.mem_append, List.mem_cons] at hm
+    rcases hm with hm | hm | hm
+    · exact hkc c hc hm
+    · rcases hc with rfl | rfl <;> exact absurd hm (by decide)
+    · exact hvc c (by rcases hc with rfl | rfl <;> decide) hm
+  have hlhs1 : ∀ c : UInt8, isDigit c = false → c ∉ ids := fun c hc => OutLemmas.isNum_no ids hid c hc
+  have hlhs2 : ∀ c : UInt8, isDigit c = false → c ≠ 46 → c ∉ ids ++ 46 :: eds := by
+    intro c hc h46 hm
+    simp only [List.mem_append, List.mem_cons] at hm
+    rcases hm with hm | hm | hm
+    · exact hlhs1 c hc hm
+    · exact h46 hm
+    · exact OutLemmas.isNum_no eds hed c hc hm
+  constructor
+  · have hl : kHWC = asc "HWC#" := rfl
+    rw [hl, OutLemmas.readLine_hwc o _ (by
+        intro hm; simp only [List.mem_append, List.mem_cons] at hm
+        rcases hm with (hm | hm | hm) | hm | hm
+        · exact hlhs1 10 (by decide) hm
+        · exact absurd hm (by decide)
+        · exact OutLemmas.isNum_no eds hed 10 (by decide) hm
+        · exact absurd hm (by decide)
+        · exact hrhs 10 (Or.inr rfl) (by simpa using hm)),
+      OutLemmas.readLine_hwc o _ (by
+        intro hm; simp only [List.mem_append, List.mem_cons] at hm
+        rcases hm with hm | hm | hm
+        · exact hlhs1 10 (by decide) hm
+        · exact absurd hm (by decide)
+        · exact hrhs 10 (Or.inr rfl) (by simpa using hm))]
+    unfold readEvent
+    rw [OutLemmas.splitOn_two 61 _ _ (hlhs2 61 (by decide) (by decide)) (hrhs 61 (Or.inl rfl)),
+      OutLemmas.splitOn_two 61 _ _ (hlhs1 61 (by decide)) (hrhs 61 (Or.inl rfl))]
+    simp only []
+    have hid1 : readIdEdge ids = some (natOfDigits ids, none) := by
+      unfold readIdEdge
+      rw [splitOn_nosep 46 _ (hlhs1 46 (by decide))]
+      simp only []
+      rw [OutLemmas.readNum_of_isNum ids hid]; rfl
+    have hid2 : readIdEdge (ids ++ 46 :: eds) = some (natOfDigits ids, some (natOfDigits eds)) := by
+      unfold readIdEdge
+      rw [OutLemmas.splitOn_two 46 _ _ (hlhs1 46 (by decide)) (OutLemmas.isNum_no eds hed 46 (by decide))]
+      simp only []
+      rw [OutLemmas.readNum_of_isNum ids hid, OutLemmas.readNum_of_isNum eds hed]
+      simp only []
+      rw [if_pos hev]
+    rw [hid1, hid2]
+    simp only []
+    have hne3 : k ++ 58 :: v ≠ asc "Down" ∧ k ++ 58 :: v ≠ asc "Up" ∧ k ++ 58 :: v ≠ asc "Press" :=
+      ⟨OutLemmas.kind_colon_ne _ _ _ (by decide), OutLemmas.kind_colon_ne _ _ _ (by decide), OutLemmas.kind_colon_ne _ _ _ (by decide)⟩
+    rw [if_neg hne3.1, if_neg hne3.2.1, if_neg hne3.2.2, if_neg hne3.1, if_neg hne3.2.1, if_neg hne3.2.2]
+  · have h1 := OutLemmas.decLine_value o ids (some eds) k v hid ⟨hed, hlt⟩ hk hne hall
+    have h2 := OutLemmas.decLine_value o ids none k v hid trivial hk hne hall
+    simp only [OutLemmas.edgeText, List.append_nil] at h1 h2
+    rw [h1, h2]
+    rcases hk with h | h | h | h <;> subst h
+    · rw [OutLemmas.decEvent_enc, OutLemmas.decEvent_enc]
+    · rw [OutLemmas.decEvent_speed, OutLemmas.decEvent_speed]
+    · rw [OutLemmas.decEvent_abs, OutLemmas.decEvent_abs]
+    · rw [OutLemmas.decEvent_raw, OutLemmas.decEvent_raw]
+
+/-- non-vacuity: the reading of `HWC#5.4=Enc:-3` / `HWC#7.16=Raw:9` is the event without edge, and the lines are in the domain -/
+example : readLine testOracle (asc "HWC#5.4=Enc:-3") = .grammar [.event .enc 5 0 false (-3)] ∧
+    readLine testOracle (asc "HWC#7.16=Raw:9") = .grammar [.event .raw 7 0 false 9] ∧
+    lineEffects testOracle (asc "HWC#5.4=Enc:-3") = [.event .enc 5 0 false (-3)] ∧
+    readLine testOracle (asc "HWC#5.3=Enc:-3") = .outside := by decide
+
+/-- **An `HWC#` line whose kind word is not one of the seven is silent**: for every left-hand side whatsoever and every
+right-hand side that does not begin (up to its first `:`) with `Down|Up|Press|Enc|Abs|Speed|Raw`, the reader classifies
+`HWC#lhs=rhs` as non-grammar and the decoder returns the empty message — no event, no report. -/
+theorem unknown_kind_silent (o : OutOracle) (lhs rhs : Bytes) (h61l : (61 : UInt8) ∉ lhs) (h61r : (61 : UInt8) ∉ rhs)
+    (h10 : (10 : UInt8) ∉ lhs ++ rhs) (hk : kindOf rhs ∉ kindWords) :
+    readLine o (asc "HWC#" ++ (lhs ++ 61 :: rhs)) = .nonGrammar ∧
+    decLine repaired o (asc "HWC#" ++ (lhs ++ 61 :: rhs)) = some {} ∧ lineEffects o (asc "HWC#" ++ (lhs ++ 61 :: rhs)) = [] := by
+  have hr : readEvent (lhs ++ 61 :: rhs) = .nonGrammar := by
+    unfold readEvent
+    rw [OutLemmas.splitOn_two 61 _ _ h61l h61r]
+    simp only []
+    rw [if_pos hk]
+  refine ⟨?_, (OutLemmas.dec_unknown_kind o _ hr).1, (OutLemmas.dec_unknown_kind o _ hr).2⟩
+  rw [OutLemmas.readLine_hwc o _ (by
+    intro hm; simp only [List.mem_append, List.mem_cons] at hm h10
+    rcases hm with hm | hm | hm
+    · exact h10 (Or.inl hm)
+    · exact absurd hm (by decide)
+    · exact h10 (Or.inr hm)), hr]
+
+example : readLine testOracle (asc "HWC#5=Foo") = .nonGrammar ∧ readLine testOracle (asc "HWC#5.4=Foo:3") = .nonGrammar ∧
+    readLine testOracle (asc "HWC#x=down") = .nonGrammar ∧ decOut testOracle [asc "HWC#5=Foo"] = [{}] ∧
+    readLine testOracle (asc "HWC#5=Down:3") = .outside := by decide
+
+/-! ## `;`-lists against the relational specification -/
+
+/-- the reader's `;`-list reading and the model of `TrimExplode` both meet the relational specification
+`Spec.Out.ItemsOf` (items = the pieces, in order, without their surrounding white space, empty ones left out), which
+determines the item list uniquely; `x` is an item iff it is the non-empty trimmed form of some piece -/
+theorem items_spec (v : Bytes) :
+    ItemsOf (splitOn 59 v) (readItems v) ∧ ItemsOf (splitOn 59 v) (trimExplode 59 v) ∧
+    (∀ a b, ItemsOf (splitOn 59 v) a → ItemsOf (splitOn 59 v) b → a = b) ∧
+    (∀ x, x ∈ trimExplode 59 v ↔ ∃ p ∈ splitOn 59 v, x = trimSpace p ∧ x ≠ []) :=
+  ⟨OutLemmas.readItems_meets v, OutLemmas.trimExplode_meets v, fun a b => OutLemmas.itemsOf_functional _ a b,
+   OutLemmas.itemsOf_mem _ _ (OutLemmas.trimExplode_meets v)⟩
+
+example : trimExplode 59 (asc " 10.0.0.1 ;;b\t; ") = [asc "10.0.0.1", asc "b"] ∧
+    readItems (asc " 10.0.0.1 ;;b\t; ") = [asc "10.0.0.1", asc "b"] := by decide
+
+/-! ## the capability list through the whole decoder -/
+
+/-- **`_support=` lines, any order**: for EVERY non-empty LF-free value `v` the decoder returns exactly one message, a
+panel-info message whose capability set has, for each of the 13 capabilities, the flag "its name occurs among the
+comma-separated parts of `v`" -/
+theorem support_line_any_order (o : OutOracle) (v : Bytes) (hv : v ≠ []) (h10 : (10 : UInt8) ∉ v) :
+    ∃ s : Support, decOut o [asc "_support=" ++ v] = [piMsg { support := some s }] ∧
+      ∀ c : Cap, s.get c = (splitOn 44 v).contains (Cap.name c) := by
+  refine ⟨supportOfParts (splitOn 44 v), ?_, fun c => support_any_order _ c⟩
+  have hd : decLine repaired o (asc "_support" ++ 61 :: v) = decGeneric o (asc "_support") v :=
+    OutLemmas.decLine_kv o _ v (by decide) hv h10
+  have e : asc "_support=" ++ v = asc "_support" ++ 61 :: v := by
+    have : asc "_support=" = asc "_support" ++ [61] := by decide
+    rw [this, List.append_assoc]; rfl
+  unfold decOut decOutV
+  rw [e]
+  simp only [List.filterMap_cons, List.filterMap_nil, hd, OutLemmas.dg_sup]
+
+/-- two `_support=` lines whose part lists name the same set (any permutation, duplicates) decode to the same messages -/
+theorem support_lines_same_set (o : OutOracle) (v w : Bytes) (hv : v ≠ []) (hw : w ≠ []) (hv10 : (10 : UInt8) ∉ v)
+    (hw10 : (10 : UInt8) ∉ w) (h : ∀ n, n ∈ splitOn 44 v ↔ n ∈ splitOn 44 w) :
+    decOut o [asc "_support=" ++ v] = decOut o [asc "_support=" ++ w] := by
+  obtain ⟨s, hs, hsg⟩ := support_line_any_order o v hv hv10
+  obtain ⟨t, ht, htg⟩ := support_line_any_order o w hw hw10
+  rw [hs, ht]
+  have : s = t := by
+    apply support_ext
+    intro c
+    rw [hsg, htg]
+    have := h (Cap.name c)
+    by_cases hm : Cap.name c ∈ splitOn 44 v
+    · simp [hm, this.1 hm]
+    · have hm2 : Cap.name c ∉ splitOn 44 w := fun x => hm (this.2 x)
+      simp [hm, hm2]
+  rw [this]
+
+example : decOut testOracle [asc "_support=Binary,ASCII,Binary,Foo"] = decOut testOracle [asc "_support=ASCII,Foo,Binary"] := by decide
+
+/-! ## round trip: encoder, then decoder -/
+
+/-- **Outbound round trip (C03 ∘ C04), on effects.**  For every list of messages of the ASCII-representable domain
+`inDomainOut` the lines the encoder produces are all in the decoder theorem's domain (`inDomainLines`: well-formed, or a
+`key=` line without value), and decoding them yields messages that carry exactly the events and information of the
+original messages, in order.  Equality is of `effectsOfOut`, i.e. up to the normalisations of Spec/PanelOut.lean, stated
+there explicitly: a scalar without presence at its default value is not reported; an empty capability set / `;`-list /
+payload is not reported; JSON and message payloads are compared in the C07 normal form `normLines` (white space at the
+edges of the original lines and the line feeds are insignificant — the decoded payload IS the flattened text), the SVG by
+its white-space-free content; FLAG registers are Booleans with numeric ids; SysStat floats are the decimal texts the
+line carries (`hpf`, `hfmt`: in this composition a float token is that text in both directions); the decoder returns one
+message per line, so the grouping of effects into messages is not preserved — only their sequence. -/
+theorem roundtrip_out (o : OutOracle) (ms : List OutMsg) (h : inDomainOut o ms = true)
+    (hpf : ∀ t, o.parseF t = t) (hfmt : ∀ p t, o.fmtF p t = t) :
+    inDomainLines o (encOut o ms) = true ∧
+    (decOut o (encOut o ms)).flatMap (effectsOfOut o) = ms.flatMap (effectsOfOut o) := by
+  have hd := OutLemmas.encOut_inDomainLines o ms h
+  refine ⟨hd, ?_⟩
+  rw [decOut_sound o _ hfmt hd, OutLemmas.encOut_R]
+  unfold inDomainOut at h
+  rw [List.all_eq_true] at h
+  exact OutLemmas.flatMap_congr' ms _ _ (fun m hm => OutLemmas.msg_sound_full o m (h m hm) hpf)
+
+def rtOracle : OutOracle := ⟨fun _ t => t, fun t => t, fun _ => asc "{}", fun _ => some {}⟩
+
+def rtMsgs : List OutMsg :=
+  [{ flow := 1 },
+   { panelInfo := some { model := asc "SK X", maxClients := 7, lockedToIPs := [asc "10.0.0.1", asc "a b"], panelType := 5,
+                         bluePillReady := true, support := some { binary := true, networkSettings := true } },
+     topology := some { svgbase := asc "<svg>\n  <path d=\"M0 0\n  L1 1\"/>\n</svg>\n", json := asc "{\n  \"a\": [ 1,\r\n\t2 ]\n}" },
+     netConfig := some {}, sleepTimeout := some 0, connections := some [], message := some (asc "hello\n  big world "),
+     avail := [(1, 4294967295), (65535, 0)], envHealth := some 2,
+     sysStat := some { cpuUsage := 99, cpuTemp := asc "45.3", memFree := -2147483648, throttled := true },
+     events := [{ hwcid := 4294967295, binary := some ⟨true, 16⟩ }, { hwcid := 5, pulsed := some (-2147483648), rawAnalog := some 4294967295 }],
+     registers := [⟨1, asc "007", 5⟩, ⟨3, asc "A9", 4294967295⟩] }]
+
+/-- non-vacuity: the sample is in the domain; its lines decode to messages with the same effects (40 of them), although
+not to the same messages (one message per line, payloads flattened, `Flag#007` → flag 7 …) -/
+example : inDomainOut rtOracle rtMsgs = true ∧
+    (decOut rtOracle (encOut rtOracle rtMsgs)).flatMap (effectsOfOut rtOracle) = rtMsgs.flatMap (effectsOfOut rtOracle) ∧
+    (rtMsgs.flatMap (effectsOfOut rtOracle)).length = 40 ∧ decOut rtOracle (encOut rtOracle rtMsgs) ≠ rtMsgs := by decide
+
+/-- non-vacuity: a mixed sequence (events incl. Raw, binary and value events with an edge suffix, an unknown kind word, Press, map, keys, a permuted capability list with a
 duplicate, a SysStat line with 3 fields in reverse order, a register, non-grammar lines) is in the domain -/
 def exLines : List Bytes :=
-  [asc "list", asc "HWC#5=Raw:123", asc "HWC#007.4=Press", asc "HWC#4294967295=Speed:-2147483648", asc "map=1:4294967295",
+  [asc "list", asc "HWC#5=Raw:123", asc "HWC#007.4=Press", asc "HWC#4294967295=Speed:-2147483648", asc "HWC#5.4=Enc:-3",
+   asc "HWC#9.16=Abs:4294967295", asc "HWC#5=Foo", asc "map=1:4294967295",
    asc "_model=SK X", asc "_support=Binary,ASCII,Binary,NetworkSettings", asc "SysStat=Throttled:1:MemFree:-5:CPUTemp:45.3:",
    asc "_serverModeLockToIP= 10.0.0.1 ;;b", asc "Flag#007=5", asc "_model=", asc "hello", asc ""]
 
